@@ -355,13 +355,14 @@ class Engine(ABC, DataDimensionality):
                 self._scaler.step(self.__optimizer)
                 # Updates the scale for next iteration.
                 self._scaler.update()
+                # Gradients are only reset after they have been applied, so that they accumulate over
+                # `gradient_steps` iterations.
+                self.__optimizer.zero_grad()  # type: ignore
 
             # TODO: Optimizer is only set in case of training, mypy inference does not seem to be correct.
             # Perhaps this has to be written differently, though. Related to #83
             self.__lr_scheduler.step()  # type: ignore # noqa
             storage.add_scalar("lr", self.__optimizer.param_groups[0]["lr"], smoothing_hint=False)  # type: ignore
-
-            self.__optimizer.zero_grad()  # type: ignore
 
             # Reduce the loss over all devices
             loss_dict_reduced = communication.reduce_tensor_dict(loss_dict)
